@@ -80,6 +80,7 @@ static uint64_t timers[MAXP + 1][MAXT]; static int ntimers[MAXP + 1];
 static uint64_t pqh[MAXP + 1][MAXT];    static int npqh[MAXP + 1];
 static uint64_t allpqh[MAXOBJ * 2];     static int nallpqh;
 static uint64_t amnt[MAXP + 1];          /* progress slot of a buffer call */
+static int entered[MAXP + 1];            /* set while the process function of the process is active (between Enter and its end) */
 static int in_yield[MAXP + 1];           /* set while the process is inside cmb_process_yield() */
 static int cwait_pred[MAXP + 1];         /* predicate id while the process is inside cmb_condition_wait(), else -1 */
 static int nsub;                         /* number of registrations of the condition as an observer */
@@ -410,6 +411,15 @@ static bool exec_instr(int me, const struct instr *in)
         timers[me][ntimers[me]++] = h;
         log_do(me, in, (long)h, ntimers[me]);
     }
+    else if (is_op(in, "taddo")) {
+        /* a timer armed FOR ANOTHER process ("pp: usually the calling process itself"): target a0, duration a1, signal a2;
+         * the target must be inside its process function and suspended (it is not the caller) */
+        if (!valid_pid(a0) || a0 == me || !entered[a0] || cmb_process_status(proc[a0]) != CMB_PROCESS_RUNNING || ntimers[a0] >= MAXT || a2 == 0) {
+            log_skip(me, in, "bad-target"); return true; }
+        const uint64_t h = cmb_process_timer_add(proc[a0], (double)a1, (int64_t)a2);
+        timers[a0][ntimers[a0]++] = h;
+        log_do(me, in, (long)h, ntimers[a0]);
+    }
     else if (is_op(in, "tcancel")) {
         if (me == 0 || a0 < 1 || a0 > ntimers[me]) { log_skip(me, in, "no-such-timer"); return true; }
         const bool r = cmb_process_timer_cancel(self, timers[me][a0 - 1]);
@@ -435,6 +445,7 @@ static bool exec_instr(int me, const struct instr *in)
         if (!valid_pid(a0)) { log_skip(me, in, "bad-target"); return true; }
         if (!alive(a0)) { log_skip(me, in, "target-not-running"); return true; }
         fprintf(out, "{\"e\":\"StopCall\",\"p\":%d,\"q\":%ld,\"val\":%ld,\"t\":%ld}\n", me, a0, a1, now());
+        entered[a0] = 0;
         fflush(out);
         cmb_process_stop(proc[a0], (void *)(intptr_t)a1);
         /* only reached when the target is another process */
@@ -444,6 +455,7 @@ static bool exec_instr(int me, const struct instr *in)
     else if (is_op(in, "exit")) {
         if (me == 0) { log_skip(me, in, "dispatcher"); return true; }
         fprintf(out, "{\"e\":\"ExitCall\",\"p\":%d,\"val\":%ld,\"t\":%ld}\n", me, a0, now());
+        entered[me] = 0;
         fflush(out);
         cmb_process_exit((void *)(intptr_t)a0);
         return false;   /* not reached */
@@ -568,6 +580,7 @@ static void *procfn(struct cmb_process *me_p, void *ctx)
     ntimers[me] = 0;
     cwait_pred[me] = -1;
     amnt[me] = 0u; in_yield[me] = 0;      /* a restarted process: the slots of its previous life are dead */
+    entered[me] = 1;
     snap();
     for (int k = 0; k < P.p[me].n; k++) {
         const struct instr *in = &(P.p[me].code[k]);
@@ -584,6 +597,7 @@ static void *procfn(struct cmb_process *me_p, void *ctx)
         if (!exec_instr(me, in)) break;
     }
     fprintf(out, "{\"e\":\"Return\",\"p\":%d,\"val\":%d,\"t\":%ld}\n", me, 100 + me, now());
+    entered[me] = 0;
     fflush(out);
     return (void *)(intptr_t)(100 + me);
 }
@@ -701,7 +715,7 @@ static void run_program(void)
     oq = cmb_objectqueue_create(); cmb_objectqueue_initialize(oq, "OQ", P.oqcap < 0 ? CMB_UNLIMITED : (uint64_t)P.oqcap);
     pq = cmb_priorityqueue_create(); cmb_priorityqueue_initialize(pq, "PQ", P.pqcap < 0 ? CMB_UNLIMITED : (uint64_t)P.pqcap);
     cond = cmb_condition_create(); cmb_condition_initialize(cond, "Cond");
-    for (int i = 1; i <= P.np; i++) cwait_pred[i] = -1;
+    for (int i = 1; i <= P.np; i++) { cwait_pred[i] = -1; entered[i] = 0; }
     nsub = 0; nsubg[0] = nsubg[1] = 0;
     for (int i = 1; i <= P.np; i++) {
         proc[i] = cmb_process_create();
